@@ -37,6 +37,14 @@ CLAIMS["C08"] = dict(
     technique="exception-escape and stdout-effect analysis over the resolved call graph + CFG must-pass/dominance",
     design="DESIGN.md section 4, C08")
 
+CLAIMS["C17"] = dict(
+    text="Three-way label agreement (disabled-opcode gate == dispatcher case group == StepExtended handlers), exhaustiveness of "
+         "parallel opcode arms / nested switches inside multi-label case groups, dominance of a rejecting zero/range test over every "
+         "division, modulo and shift by script data, position and control of the gate (before the executed test, DISABLED_OPCODE, only "
+         "-z can open it) and error discipline of StepExtended. What each opcode computes is not decided.",
+    technique="table agreement over resolved enumerators + guard dominance on the CFG",
+    design="DESIGN.md section 4, C17")
+
 NOT_YET = "check not built yet in this round (see DESIGN.md section 7 build order)"
 
 NA = {
